@@ -32,6 +32,7 @@ var jsScripts = []string{
 	"F15-admission-error-leaves-tasks",
 	"F16-foreign-pod-bound-by-name",
 	"F17-stale-job-cache-recreates-attempt",
+	"S-admission-error-then-kill",
 }
 
 type jsCfg struct {
@@ -420,6 +421,9 @@ func runJobSync(ctx *RunCtx) *Result {
 			if script == "F15-admission-error-leaves-tasks" {
 				m = &mJob{Shape: "count", Count: 2, MaxAttempts: 1, Finalizer: true}
 			}
+			if script == "S-admission-error-then-kill" {
+				m = &mJob{Shape: "count", Count: 2, MaxAttempts: 2, Finalizer: true}
+			}
 			m.init()
 			cfg = jsCfg{Pending: ip(900), Force: ip(900), TTL: ip(3600)}
 		}
@@ -465,6 +469,27 @@ func runJobSync(ctx *RunCtx) *Result {
 				do(jsOp{Kind: "sync"})
 				do(jsOp{Kind: "kubelet", Name: p0, Step: "schedule"})
 				do(jsOp{Kind: "kubelet", Name: p0, Step: "run"})
+			case "S-admission-error-then-kill":
+				// both tasks run and are recorded; index 0 fails, the name of its retry is taken: the
+				// Job is refused (AdmissionError) while the recorded task of index 1 still runs; then
+				// the user kills the Job
+				p1 := taskName(m.Hashes[1], 0)
+				settle()
+				do(jsOp{Kind: "sync"})
+				for _, pn := range []string{p0, p1} {
+					do(jsOp{Kind: "kubelet", Name: pn, Step: "schedule"})
+					do(jsOp{Kind: "kubelet", Name: pn, Step: "run"})
+				}
+				settle()
+				do(jsOp{Kind: "sync"})
+				do(jsOp{Kind: "foreign", Hash: h0, Retry: 1})
+				do(jsOp{Kind: "kubelet", Name: p0, Step: "fail"})
+				settle()
+				do(jsOp{Kind: "sync"})
+				settle()
+				do(jsOp{Kind: "sync"})
+				do(jsOp{Kind: "kill", T: im.api.now()})
+				do(jsOp{Kind: "clock", T: im.api.now() + 2})
 			case "F16-foreign-pod-bound-by-name":
 				settle()
 				do(jsOp{Kind: "sync"})
@@ -585,6 +610,15 @@ func runJobSync(ctx *RunCtx) *Result {
 			case r < 89:
 				if len(m.Hashes) > 0 {
 					do(jsOp{Kind: "foreign", Hash: Pick(c, m.Hashes), Retry: int64(c.Intn(int(m.MaxAttempts))), SameName: c.Bool()})
+					if c.Chance(1, 2) {
+						// let the controller meet the occupant (admission error while other tasks may live), then kill
+						settle()
+						do(jsOp{Kind: "sync"})
+						if rj := im.api.getJob(jobName); rj != nil && (rj.Spec.KillTimestamp == nil || rj.Spec.KillTimestamp.Unix() > im.api.now()) {
+							do(jsOp{Kind: "kill", T: im.api.now() + Pick(c, []int64{0, 1})})
+							do(jsOp{Kind: "clock", T: im.api.now() + 2})
+						}
+					}
 				}
 			case r < 93:
 				if faulty {
